@@ -7,7 +7,7 @@
    clip-free CIGAR [mid] in between, optionally with the first cycle lost. *)
 From Coq Require Import ZArith List Bool.
 Import ListNotations.
-From SCMO Require Import Lib.Val Lib.C09Str Gen.GenSite Model.C09 Proofs.C09.
+From SCMO Require Import Lib.Val Lib.C09Str Lib.C09Ref Gen.GenSite Model.C09 Model.C09x Proofs.C09 Proofs.C09x.
 Open Scope Z_scope.
 
 (* NlaIII: the site tag is the reference coordinate of the recognised CATG - both strands, every clip,
@@ -257,3 +257,270 @@ Example C09_nocigar_ex :   (* --no_umi_cigar_processing, 2 clipped cycles: the C
   Done (mkObs (Some 1001) (Some false) None None false true (Some 1001) (Some false)).
 Proof. vm_compute. repeat split. Qed.
 Print Assumptions C09_nocigar_ex.
+
+(* ============================================================================================================
+   EXTENSION: the two modes of the fragment classes the theorems above leave out (Model/C09x.v).
+   nla_no_fragment wraps the REGENERATED body of `if self.no_overhang:` (Gen/GenSite.v: nla_no_overhang_gen);
+   the reference handle is the one bamtagmultiome builds (CachedFasta: fetch = a Python slice of the contig).
+   nla_fragment_x / chic_fragment_x / nla_no_fragment_x add max_fragment_size: Fragment.update_span,
+   get_fragment_size and both is_valid functions are REGENERATED (span_*_gen, fragment_size_gen, *_is_valid_gen).
+   ============================================================================================================ *)
+
+(* no_overhang: the CATG lies OUTSIDE the read.  For every reference  pre ++ CATG ++ post  (CATG at p = |pre|),
+   a read whose first cycle is the base after the motif (forward) / before it (reverse), with up to 3 clipped
+   cycles (= the 3 extra bases identify_site scans), any tail clip, any aligned CIGAR, lying on the contig:
+   DS = p on both strands, RS the strand, RZ the scanned window.
+   FULL statement: the same equation for every placeable read, i.e. without  clip <= 3,  0 < p  and
+   (reverse = false -> 3 <= p + clip).  It is REFUTED on the model regenerated from the source:
+   C09_nla_no_overhang_clip_refuted (4 clipped cycles), C09_nla_no_overhang_contig_start_refuted (forward read less than
+   7 bases from the contig start), C09_nla_no_overhang_site_zero_refuted (site 0) - findings D33 / D34. *)
+Theorem C09_nla_no_overhang_site_partial : forall c pre_ post cycles mid reverse clip tail preq,
+  let ref := pre_ ++ CATG ++ post in
+  let p := Z.of_nat (length pre_) in
+  let r := simulate_nla_no cycles mid p reverse clip tail in
+  good_mid mid = true -> c_check_motif c = true -> 0 <= clip <= 3 -> 0 < p ->
+  0 <= r_start r -> ref_end r <= Z.of_nat (length ref) -> (reverse = false -> 3 <= p + clip) ->
+  nla_no_fragment c (-4) (Some ref) true preq (Some r) =
+  Done (site_obs p (xorb reverse (c_invert c)) reverse (Some (no_window ref p reverse clip)) preq).
+Proof. exact nla_no_site. Qed.
+Print Assumptions C09_nla_no_overhang_site_partial.
+
+Example C09_nla_no_overhang_site_ex :   (* CATG at 10; reverse read, 2 clipped cycles, deletion in the CIGAR *)
+  let ref := repeat 65 10 ++ CATG ++ repeat 84 20 in
+  let r := simulate_nla_no [65; 65; 67; 65; 65; 65; 65] [(0, 2); (2, 1); (0, 3)] 10 true 2 0 in
+  r = mkRead 2 [(0, 2); (2, 1); (0, 3); (4, 2)] true [84; 84; 84; 84; 71; 84; 84] false None /\
+  nla_no_fragment (mkCfg false true false false) (-4) (Some ref) true false (Some r) =
+  Done (mkObs (Some 10) (Some true) (Some [65; 65; 67; 65; 84; 71; 84]) None false true (Some 10) (Some true)).
+Proof. vm_compute. repeat split. Qed.
+Print Assumptions C09_nla_no_overhang_site_ex.
+
+(* no_overhang: ANY mapped read without a CATG in the 7 reference bases next to it is rejected: no DS, no RS,
+   no site, not valid, reads flagged qcfail *)
+Theorem C09_nla_no_overhang_reject : forall c ref r preq,
+  r_unmapped r = false -> c_check_motif c = true -> r_cigar r <> [] ->
+  py_contains CATG (if r_rev r then fetch_slice ref (ref_end r) (ref_end r + 7)
+                    else fetch_slice ref (r_start r - 7) (r_start r)) = false ->
+  is_rejected (nla_no_fragment c (-4) (Some ref) true preq (Some r)) /\
+  exists o, nla_no_fragment c (-4) (Some ref) true preq (Some r) = Done o /\ o_rs o = None /\ o_loc o = None.
+Proof. exact nla_no_reject. Qed.
+Print Assumptions C09_nla_no_overhang_reject.
+
+(* no_overhang (with or without max_fragment_size): mirror symmetry for EVERY mapped read lying on the contig
+   whose forward-strand image starts at least 8 bases into the contig - the fragment seen on the
+   reverse-complemented reference gets the mirrored site, the opposite strand, the reverse-complemented window,
+   the same validity.
+   FULL statement: the same equation without  8 <= fwd_start L a  and without  mate_ok a r2.  REFUTED:
+   C09_nla_no_overhang_contig_start_refuted, C09_nla_no_overhang_site_zero_refuted (finding D33) and, for a mapped mate
+   on the same strand with max_fragment_size, C09_size_rule_same_orientation_refuted (finding D35). *)
+Theorem C09_nla_no_overhang_mirror_partial : forall c ref a r2 pre m,
+  let L := Z.of_nat (length ref) in
+  r_unmapped a = false -> r_cigar a <> [] -> mate_ok a r2 = true ->
+  0 <= r_start a -> r_start a < ref_end a -> ref_end a <= L -> 8 <= fwd_start L a ->
+  forget_rr (nla_no_fragment_x c (-4) (Some (revcomp ref)) true pre (Some (mirror L a)) (option_map (mirror L) r2) m) =
+  mirror_result L 4 (nla_no_fragment_x c (-4) (Some ref) true pre (Some a) r2 m).
+Proof. exact nla_no_x_mirror. Qed.
+Print Assumptions C09_nla_no_overhang_mirror_partial.
+
+Theorem C09_no_overhang_simulator_symmetric : forall L cycles mid p reverse clip tail, good_mid mid = true ->
+  mirror L (simulate_nla_no cycles mid p reverse clip tail) =
+  simulate_nla_no cycles (rev mid) (L - 4 - p) (negb reverse) clip tail.
+Proof. exact sim_nla_no_mirror. Qed.
+Print Assumptions C09_no_overhang_simulator_symmetric.
+
+Example C09_nla_no_overhang_mirror_ex :   (* CATG at 10 on a 34-base contig; forward read with 1 clipped cycle *)
+  let ref := repeat 65 10 ++ CATG ++ repeat 84 20 in
+  let r := simulate_nla_no [67; 84; 84; 84; 84; 84] [(0, 5)] 10 false 1 0 in
+  8 <= fwd_start 34 r /\
+  nla_no_fragment_x (mkCfg false true false false) (-4) (Some ref) true false (Some r) None None =
+    Done (mkObs (Some 10) (Some false) (Some [65; 65; 67; 65; 84; 71; 84]) None false true (Some 10) (Some false)) /\
+  nla_no_fragment_x (mkCfg false true false false) (-4) (Some (revcomp ref)) true false (Some (mirror 34 r)) None None =
+    Done (mkObs (Some 20) (Some true) (Some [65; 67; 65; 84; 71; 84; 84]) None false true (Some 20) (Some true)).
+Proof. vm_compute. repeat split; discriminate. Qed.
+Print Assumptions C09_nla_no_overhang_mirror_ex.
+
+(* REFUTED (finding): soft clips are not corrected in no_overhang mode - a placeable read with 4 clipped cycles
+   is rejected although the CATG is where the simulator put it *)
+Theorem C09_nla_no_overhang_clip_refuted :
+  exists c pre_ post cycles mid reverse clip tail,
+    let ref := pre_ ++ CATG ++ post in
+    let p := Z.of_nat (length pre_) in
+    let r := simulate_nla_no cycles mid p reverse clip tail in
+    good_mid mid = true /\ c_check_motif c = true /\ 0 <= clip /\ 0 < p /\
+    0 <= r_start r /\ ref_end r <= Z.of_nat (length ref) /\ 3 <= p + clip /\
+    is_rejected (nla_no_fragment c (-4) (Some ref) true false (Some r)).
+Proof. exact nla_no_clip_refuted. Qed.
+Print Assumptions C09_nla_no_overhang_clip_refuted.
+
+(* REFUTED (finding): mirror symmetry fails at the contig start - the window of a forward read closer than 7
+   bases to position 0 is fetched with a negative slice bound and comes back empty *)
+Theorem C09_nla_no_overhang_contig_start_refuted :
+  exists c ref r,
+    let L := Z.of_nat (length ref) in
+    r_unmapped r = false /\ r_cigar r <> [] /\ 0 <= r_start r /\ r_start r < ref_end r /\ ref_end r <= L /\
+    forget_rr (nla_no_fragment c (-4) (Some (revcomp ref)) true false (Some (mirror L r))) <>
+    mirror_result L 4 (nla_no_fragment c (-4) (Some ref) true false (Some r)).
+Proof. exact nla_no_contig_start_refuted. Qed.
+Print Assumptions C09_nla_no_overhang_contig_start_refuted.
+
+(* REFUTED (finding): a CATG at reference position 0 gets DS = 0 but the fragment is not valid (identify_site
+   returns the integer 0, which `if self.identify_site():` reads as False); its mirror image is valid *)
+Theorem C09_nla_no_overhang_site_zero_refuted :
+  exists c ref r,
+    let L := Z.of_nat (length ref) in
+    r_unmapped r = false /\ r_cigar r <> [] /\ 7 <= r_start r /\ r_start r < ref_end r /\ ref_end r <= L /\
+    forget_rr (nla_no_fragment c (-4) (Some (revcomp ref)) true false (Some (mirror L r))) <>
+    mirror_result L 4 (nla_no_fragment c (-4) (Some ref) true false (Some r)).
+Proof. exact nla_no_site_zero_refuted. Qed.
+Print Assumptions C09_nla_no_overhang_site_zero_refuted.
+
+(* max_fragment_size = None: the extended model is the model the theorems above speak about *)
+Theorem C09_size_rule_off : forall c (two : bool) pre r1 (r2 : option read) seqs off ref,
+  (span_at_init pre r1 (if two then r2 else None) <> SpanRaise ->
+   nla_fragment_x c two pre r1 r2 None = nla_fragment c two pre r1 /\
+   nla_no_fragment_x c off ref two pre r1 r2 None = nla_no_fragment c off ref two pre r1) /\
+  (span_at_init (pre || any_homopolymer seqs) r1 r2 <> SpanRaise ->
+   chic_fragment_x c pre r1 r2 seqs None = chic_fragment_h c pre r1 (r2_summary r2) seqs).
+Proof.
+  intros c two pre r1 r2 seqs off ref. split.
+  - intro H. exact (conj (nla_x_off c two pre r1 r2 H) (nla_no_x_off c off ref two pre r1 r2 H)).
+  - exact (chic_x_off c pre r1 r2 seqs).
+Qed.
+Print Assumptions C09_size_rule_off.
+
+(* the size rule, for EVERY fragment (any reads, any configuration): compared with the same fragment without
+   the rule, the fragment is rejected exactly when it was not qcfail on input and its size - |end - start| of the
+   span update_span computed - exceeds max_fragment_size; NlaIII then adds the reason FS and flags the reads,
+   scCHIC only withdraws validity; site, strand and recognised sequence are untouched *)
+Theorem C09_nla_size_rule_any_fragment : forall c (two : bool) pre r1 (r2 : option read) m o,
+  nla_fragment_x c two pre r1 r2 None = Done o ->
+  nla_fragment_x c two pre r1 r2 (Some m) =
+  Done (match (if pre then None else frag_size r1 (if two then r2 else None)) with
+        | Some sz => if m <? sz then size_rejected_nla o else o
+        | None => o
+        end).
+Proof. exact nla_size_general. Qed.
+Print Assumptions C09_nla_size_rule_any_fragment.
+
+Theorem C09_chic_size_rule_any_fragment : forall c pre r1 r2 seqs m o,
+  chic_fragment_x c pre r1 r2 seqs None = Done o ->
+  chic_fragment_x c pre r1 r2 seqs (Some m) =
+  Done (match (if pre || any_homopolymer seqs then None else frag_size r1 r2) with
+        | Some sz => if m <? sz then size_rejected_chic o else o
+        | None => o
+        end).
+Proof. exact chic_size_general. Qed.
+Print Assumptions C09_chic_size_rule_any_fragment.
+
+Theorem C09_fragment_size_is_span_length : forall r1 r2 s e,
+  frag_span r1 r2 = Span s e -> frag_size r1 r2 = Some (Z.abs (e - s)).
+Proof. exact frag_size_is_span. Qed.
+Print Assumptions C09_fragment_size_is_span_length.
+
+(* ground truth for the size: a pair placed by the simulator - read 1 first cycle at x1 on strand [reverse], its
+   mate first cycle at x2 on the other strand, clip1 / clip2 clipped cycles - has size |pair_extent|, the number of
+   reference bases from the first aligned base of one read to the first aligned base of the other: the same
+   expression on both strands; a single read has the length of its aligned part *)
+Theorem C09_fragment_size_simulated : forall c1 mid1 x1 reverse cl1 t1 mx c2 mid2 x2 cl2 t2,
+  good_mid mid1 = true -> good_mid mid2 = true ->
+  frag_size (Some (place_read c1 mid1 x1 reverse cl1 t1 mx)) (Some (place_mate c2 mid2 x2 reverse cl2 t2)) =
+    Some (Z.abs (pair_extent x1 cl1 x2 cl2 reverse)) /\
+  frag_size (Some (place_read c1 mid1 x1 reverse cl1 t1 mx)) None = Some (ref_len mid1).
+Proof.
+  intros c1 mid1 x1 reverse cl1 t1 mx c2 mid2 x2 cl2 t2 H1 H2.
+  exact (conj (frag_size_pair_sim c1 mid1 x1 reverse cl1 t1 mx c2 mid2 x2 cl2 t2 H1 H2)
+              (frag_size_single_sim c1 mid1 x1 reverse cl1 t1 mx H1)).
+Qed.
+Print Assumptions C09_fragment_size_simulated.
+
+(* simulated fragments with max_fragment_size = m: the site is still the simulated truth, and the fragment is
+   rejected iff it was not qcfail on input and m < size - on both strands, every clip, every configuration *)
+Theorem C09_nla_size_rule : forall c cycles mid p reverse clip tail pre mate m sz,
+  good_mid mid = true -> py_prefix 4 cycles = CATG ->
+  let r1 := simulate_nla cycles mid p reverse clip tail false in
+  frag_size (Some r1) mate = Some sz ->
+  nla_fragment_x c true pre (Some r1) mate (Some m) =
+  Done (let o := site_obs (p + clip_shift c reverse clip) (xorb reverse (c_invert c)) reverse (Some CATG) pre in
+        if negb pre && (m <? sz) then size_rejected_nla o else o).
+Proof. exact nla_size_sim. Qed.
+Print Assumptions C09_nla_size_rule.
+
+Theorem C09_chic_size_rule : forall c cycles mid x reverse clip tail trimmed mx pre mate seqs m sz,
+  good_mid mid = true -> mx_trimmed mx = trimmed -> any_homopolymer seqs = false ->
+  let r1 := simulate_chic cycles mid x reverse clip tail trimmed mx in
+  r2_ok reverse (r2_summary mate) = true ->
+  frag_size (Some r1) mate = Some sz ->
+  chic_fragment_x c pre (Some r1) mate seqs (Some m) =
+  Done (let o := site_obs ((if reverse then x + 1 else x - 1) + clip_shift c reverse clip)
+                          (xorb reverse (c_invert c)) (xorb reverse (c_invert c)) None pre in
+        if negb pre && (m <? sz) then size_rejected_chic o else o).
+Proof. exact chic_size_sim. Qed.
+Print Assumptions C09_chic_size_rule.
+
+Theorem C09_nla_no_overhang_size_rule : forall c pre_ post cycles mid reverse clip tail preq mate m sz,
+  let ref := pre_ ++ CATG ++ post in
+  let p := Z.of_nat (length pre_) in
+  let r := simulate_nla_no cycles mid p reverse clip tail in
+  good_mid mid = true -> c_check_motif c = true -> 0 <= clip <= 3 -> 0 < p ->
+  0 <= r_start r -> ref_end r <= Z.of_nat (length ref) -> (reverse = false -> 3 <= p + clip) ->
+  frag_size (Some r) mate = Some sz ->
+  nla_no_fragment_x c (-4) (Some ref) true preq (Some r) mate (Some m) =
+  Done (let o := site_obs p (xorb reverse (c_invert c)) reverse (Some (no_window ref p reverse clip)) preq in
+        if negb preq && (m <? sz) then size_rejected_nla o else o).
+Proof. exact nla_no_size_sim. Qed.
+Print Assumptions C09_nla_no_overhang_size_rule.
+
+Example C09_size_rule_ex :   (* reverse read 1 (CATG at 1000, 2 clipped cycles), forward mate 81 bases upstream: size 100 *)
+  let r1 := simulate_nla [67; 65; 84; 71; 65; 65; 67; 71; 84; 84] [(0, 8)] 1000 true 2 0 false in
+  let r2 := place_mate [65; 67; 71; 84; 65; 67] [(0, 5)] 901 true 1 0 in
+  r_start r2 = 902 /\ ref_end r1 = 1002 /\ pair_extent 1003 2 901 1 true = 100 /\
+  frag_size (Some r1) (Some r2) = Some 100 /\
+  nla_fragment_x (mkCfg false true false false) true false (Some r1) (Some r2) (Some 100) =
+    Done (mkObs (Some 1000) (Some true) (Some CATG) None false true (Some 1000) (Some true)) /\
+  nla_fragment_x (mkCfg false true false false) true false (Some r1) (Some r2) (Some 99) =
+    Done (mkObs (Some 1000) (Some true) (Some CATG) (Some s_FS) true false (Some 1000) (Some true)) /\
+  chic_fragment_x (mkCfg false true false false) false (Some r1) (Some r2) [] (Some 99) =
+    Done (mkObs (Some 1004) (Some true) None None false false (Some 1004) (Some true)).
+Proof. vm_compute. repeat split. Qed.
+Print Assumptions C09_size_rule_ex.
+
+(* the size rule is independent of the strand: for every mapped read 1 whose mate is absent, has no reference
+   span, or lies on the opposite strand, the mirrored fragment gets the mirrored site and the SAME verdict
+   (validity, qcfail), for every max_fragment_size and configuration.
+   FULL statement (NlaIII): the same equation without  mate_ok a r2  - REFUTED by
+   C09_size_rule_same_orientation_refuted (finding D35).  For scCHIC the full statement holds (a mapped mate on the
+   same strand makes the fragment invalid whatever its size): C09_chic_size_rule_mirror has no hypothesis on the mate. *)
+Theorem C09_nla_size_rule_mirror_partial : forall c L a r2 pre m,
+  r_unmapped a = false -> r_cigar a <> [] -> mate_ok a r2 = true ->
+  forget_rr (nla_fragment_x c true pre (Some (mirror L a)) (option_map (mirror L) r2) m) =
+  mirror_result L 4 (nla_fragment_x c true pre (Some a) r2 m).
+Proof. exact nla_x_mirror. Qed.
+Print Assumptions C09_nla_size_rule_mirror_partial.
+
+Theorem C09_chic_size_rule_mirror : forall c L a r2 pre seqs m,
+  r_unmapped a = false -> r_cigar a <> [] ->
+  forget_rr (chic_fragment_x c pre (Some (mirror L a)) (option_map (mirror L) r2) (map revcomp seqs) m) =
+  mirror_result L 1 (chic_fragment_x c pre (Some a) r2 seqs m).
+Proof. exact chic_x_mirror_any. Qed.
+Print Assumptions C09_chic_size_rule_mirror.
+
+(* REFUTED (finding): for two mates on the SAME strand (NlaIIIFragment accepts them) update_span takes min / max of
+   the two start coordinates; that span is not mirror symmetric, so one orientation passes max_fragment_size and
+   the other does not *)
+Theorem C09_size_rule_same_orientation_refuted :
+  exists c L a b m,
+    r_unmapped a = false /\ r_cigar a <> [] /\ r_unmapped b = false /\ r_cigar b <> [] /\ r_rev a = r_rev b /\
+    forget_rr (nla_fragment_x c true false (Some (mirror L a)) (Some (mirror L b)) (Some m)) <>
+    mirror_result L 4 (nla_fragment_x c true false (Some a) (Some b) (Some m)).
+Proof. exact size_same_orientation_refuted. Qed.
+Print Assumptions C09_size_rule_same_orientation_refuted.
+
+Example C09_size_rule_mirror_ex :   (* the pair of C09_size_rule_ex and its mirror image: both rejected at 99, both pass at 100 *)
+  let r1 := simulate_nla [67; 65; 84; 71; 65; 65; 67; 71; 84; 84] [(0, 8)] 1000 true 2 0 false in
+  let r2 := place_mate [65; 67; 71; 84; 65; 67] [(0, 5)] 901 true 1 0 in
+  mate_ok r1 (Some r2) = true /\
+  nla_fragment_x (mkCfg false true false false) true false (Some (mirror 5000 r1)) (Some (mirror 5000 r2)) (Some 99) =
+    Done (mkObs (Some 3996) (Some false) (Some CATG) (Some s_FS) true false (Some 3996) (Some false)) /\
+  nla_fragment_x (mkCfg false true false false) true false (Some (mirror 5000 r1)) (Some (mirror 5000 r2)) (Some 100) =
+    Done (mkObs (Some 3996) (Some false) (Some CATG) None false true (Some 3996) (Some false)).
+Proof. vm_compute. repeat split. Qed.
+Print Assumptions C09_size_rule_mirror_ex.
